@@ -1,15 +1,47 @@
 (* Props/C08.v — Saving then loading a workflow reproduces it exactly.
    Only statements here; every proof is [exact <lemma of Persist/Proofs.v>].
 
-   Modelled and proved: the token family (Token with any JSON value, ListToken, ObjectToken nested to any depth,
-   TerminationToken, IterationTerminationToken) through the token table, and the independence of loaded copies as
-   far as it depends on the database layer (rows handed out by the cached getters, DbCache/Model.v).
-   NOT modelled (exercised by the check on the real code only, judged by the oracle): steps, ports, wiring,
-   combinator trees, deployment/target/filter configurations, JobToken, the WorkflowBuilder copy, CWL entities. *)
+   Modelled and proved: whole workflows (Persist/WfModel.v: name, config, input / output ports, ports of the generic
+   classes, Scatter / Gather / Combinator steps with status, wiring through the dependency table keyed by
+   (step, port), combinator trees of any depth) through the workflow / port / step / dependency tables; the token
+   family (Persist/Model.v: Token with any JSON value, ListToken, ObjectToken nested to any depth, TerminationToken,
+   IterationTerminationToken) through the token table; the independence of loaded copies as far as it depends on
+   the database layer (rows handed out by the cached getters, DbCache/Model.v).
+   NOT modelled (exercised on the real code only, or not at all): other step classes (Deploy, Schedule, Execute,
+   Transfer, loop steps, transformers), port classes with parameters, deployment / target / filter
+   configurations, JobToken, CWL entities; persistent ids of the builder copy (oracle only). *)
 From Coq Require Import List NArith ZArith.
-From SF Require Import Base.Str DbCache.Model DbCache.Proofs Persist.Model Persist.Proofs.
+From SF Require Import Base.Str DbCache.Model DbCache.Proofs Persist.Model Persist.Proofs Persist.WfModel Persist.WfProofs.
 Import ListNotations.
 Local Open Scope string_scope. Local Open Scope list_scope.
+
+(* load(save w) = w: the same steps, ports and wiring, the same parameters -- for every workflow in the domain
+   [ok_wf] (dict keys unique; every step refers to existing ports and to each of them under one name only -- the
+   excluded class is refuted below and is a known finding; Scatter / Gather steps have their size port) and every
+   database whose rows refer to existing workflows / steps ([ok_db]; any number of workflows saved before).
+   PARTIAL: the step and port classes listed in the header; equality is exact in the model, whose dependency maps
+   and tables abstract from dict / row order (see Persist/WfModel.v). *)
+Theorem C08_workflow_roundtrip_partial : forall w d,
+  ok_db d = true -> ok_wf w = true ->
+  exists wid d', save_wf w d = Some (wid, d') /\ load_wf d' wid = Some w /\ wid = S (length (t_wf d)).
+Proof. exact workflow_roundtrip. Qed.
+
+(* the WorkflowBuilder deep copy has the same structure, every step back in status WAITING.  PARTIAL: that the
+   copy carries no persistent id is not expressible in the model (it has no ids in memory); the oracle checks it. *)
+Theorem C08_builder_copy_partial : forall w d,
+  ok_db d = true -> ok_wf w = true ->
+  exists wid d', save_wf w d = Some (wid, d') /\
+    builder_copy d' wid =
+      Some (mkwf (w_name w) (w_config w) (w_inp w) (w_outp w) (w_ports w)
+                 (map (fun s => mkstep (s_name s) (s_kind s) 0%Z (s_in s) (s_out s)) (w_steps w))).
+Proof. exact builder_copy_structure. Qed.
+
+(* outside [ok_wf]: a step that uses one port as input "a" and as output "o" loads back without one of them *)
+Theorem C08_port_under_two_names_refuted :
+  ok_db (mkwdb [] [] [] []) = true /\
+  exists d', save_wf twice_witness (mkwdb [] [] [] []) = Some (1, d') /\
+             load_wf d' 1 <> Some twice_witness /\ load_wf d' 1 <> None.
+Proof. exact twice_witness_loses. Qed.
 
 (* load (save t) = t: same type, tag, value and recoverable flag, for every nested token and whatever the token
    table already contains.  PARTIAL with respect to the property text: tokens only (see the header). *)
@@ -48,6 +80,17 @@ Example C08_roundtrip_example :
   wf t /\ height t = 4 /\
   load (height t) (snd (save t [mkrow "x" "9" VNull false])) (fst (save t [mkrow "x" "9" VNull false])) = Some t.
 Proof. vm_compute. repeat split; reflexivity. Qed.
+Example C08_workflow_example :
+  let c := PComb CDot "c0" ["a"; "c1"] [("b", "c1")] ["c1"] [PComb (CCart 2) "c1" ["b"] [] [] []] in
+  let w := mkwf "wf" (JObj [("k", JArr [JNum 1])]) [("x", "p0")] [("out", "p2")]
+                [mkport "p0" "Port"; mkport "p1" "JobPort"; mkport "p2" "Port"]
+                [mkstep "/sc" KScatter 4%Z [("in", "p0")] [("__size__", "p1"); ("o", "p2")];
+                 mkstep "/g" (KGather 2) 0%Z [("__size__", "p1"); ("a", "p2")] [("r", "p0")];
+                 mkstep "/c" (KComb c) 2%Z [("a", "p0"); ("b", "p1")] [("a", "p2")]] in
+  let d0 := mkwdb [mkwrow "old" JNull [] []] [mkprow "q" 1 "Port"] [] [] in
+  ok_wf w = true /\ ok_db d0 = true /\
+  option_map (fun r => load_wf (snd r) (fst r)) (save_wf w d0) = Some (Some w).
+Proof. vm_compute. repeat split; reflexivity. Qed.
 Example C08_independent_fixed :
   let s := fst (run Deep init shared_witness) in
   let s0 := fst (run Deep init (firstn 3 shared_witness)) in
@@ -55,6 +98,9 @@ Example C08_independent_fixed :
   map (resolve (cells s)) (skipn 1 (handles s)) = map (resolve (cells s0)) (skipn 1 (handles s0)).
 Proof. split; [reflexivity | exact shared_witness_deep_ok]. Qed.
 
+Print Assumptions C08_workflow_roundtrip_partial.
+Print Assumptions C08_builder_copy_partial.
+Print Assumptions C08_port_under_two_names_refuted.
 Print Assumptions C08_token_roundtrip_partial.
 Print Assumptions C08_save_keeps_stored_records.
 Print Assumptions C08_loads_independent_partial.
